@@ -55,6 +55,20 @@ Theorem C02_every_run_confined_executable : forall cfg S D a ans bits ex ft,
   r_skipped r = [] -> no_through (d_events (r_dest r)).
 Proof. exact run_top_all_confined. Qed.
 
+(* ... and also when the user skipped entries (the F6a repair: nothing is copied at or below a kept entry that
+   is in the way): NO run ever resolves a path through a destination symlink. *)
+Theorem C02_no_run_goes_through_a_link : forall now_z incl normalize chunker cfg S D ans bits ls ld ft,
+  valid_listing now_z incl normalize S ls -> valid_listing now_z incl normalize (d_fs D) ld ->
+  parents_first (lkeys (side_listing now_z normalize S ls)) -> parents_first (lkeys (side_listing now_z normalize (d_fs D) ld)) ->
+  wf_fs (d_fs D) -> no_through (d_events D) ->
+  no_through (d_events (r_dest (sync_one now_z normalize chunker cfg S D ans bits ls ld ft))).
+Proof. exact no_run_goes_through_a_link. Qed.
+
+Theorem C02_executable_never_through : forall cfg S D a ans bits ex ft,
+  unique_keys S -> wf_fs S -> unique_keys D -> wf_fs D ->
+  no_through (d_events (r_dest (run_top cfg S D a ans bits ex ft))).
+Proof. exact run_top_never_through. Qed.
+
 (* A dry run leaves the whole destination world as it is (C05), in particular its event log. *)
 Theorem C02_dry_run_confined : forall now_z normalize chunker cfg S D ans bits ls ld ft,
   cf_dry cfg = true -> r_dest (sync_one now_z normalize chunker cfg S D ans bits ls ld ft) = D.
@@ -90,6 +104,8 @@ Print Assumptions C02_clean_run_confined.
 Print Assumptions C02_through_needs_link.
 Print Assumptions C02_every_run_confined.
 Print Assumptions C02_every_run_confined_executable.
+Print Assumptions C02_no_run_goes_through_a_link.
+Print Assumptions C02_executable_never_through.
 Print Assumptions C02_blocked_refused.
 Print Assumptions C02_failed_delete_blocks.
 Print Assumptions C02_blocked_stays.
